@@ -121,6 +121,18 @@ def rule_j1_j3(repo, col):
             c = _cond_of(v)
             if c is not None:
                 assigned[st.targets[0].id] = (c, st)
+            elif isinstance(v, ast.Name) and v.id in assigned:
+                assigned[st.targets[0].id] = assigned[v.id]  # tuple(<selection>) / alias
+        # the same selection written as a loop: for i in range(..): if COND: NAME.append(ELT)
+        if isinstance(st, ast.For) and isinstance(st.target, ast.Name) and len(st.body) == 1 and isinstance(st.body[0], ast.If) and not st.body[0].orelse and not st.orelse \
+                and len(st.body[0].body) == 1 and isinstance(st.body[0].body[0], ast.Expr) and isinstance(st.body[0].body[0].value, ast.Call):
+            call = st.body[0].body[0].value
+            if isinstance(call.func, ast.Attribute) and call.func.attr == "append" and isinstance(call.func.value, ast.Name) and len(call.args) == 1:
+                name = call.func.value.id
+                # the accumulator must start empty in this iteration of the enumeration
+                init = [x for x in wl.body if isinstance(x, ast.Assign) and norm(x.targets[0]) == name and x.lineno < st.lineno]
+                if len(init) == 1 and norm(init[0].value) in ("[]", "list()"):
+                    assigned[name] = ((st.target.id, st.iter, st.body[0].test, call.args[0]), st)
     pos = neg = None
     for name, (c, st) in assigned.items():
         i, it, cond, elt = c
